@@ -6,6 +6,8 @@ import (
 
 	"github.com/ipfs/go-cid"
 
+	"github.com/ucan-wg/go-ucan/pkg/policy"
+	"github.com/ucan-wg/go-ucan/pkg/policy/literal"
 	"github.com/ucan-wg/go-ucan/token/delegation"
 	"github.com/ucan-wg/go-ucan/token/invocation"
 	verifclock "github.com/ucan-wg/go-ucan/verifshim/clock"
@@ -180,6 +182,153 @@ func clockSub(prop string) *engine.Sub {
 				}
 				if _, _, err := engine.ExploreEnv(6, 100000, run, judge); err != nil {
 					panic(err)
+				}
+			}
+		},
+	}
+}
+
+// ---- histories of checks across a bound, under the controlled clock ----
+
+type clockHistCase struct {
+	Bound string `json:"bound"` // nbf | exp
+	On    int    `json:"on"`    // 0 leaf, 1 root, 2 invocation (exp only)
+	Seq   []int  `json:"seq"`   // menu index of the clock during check k
+	Kind  []int  `json:"kind"`  // check k uses: 0 the shared invocation token, 1 a fresh one, 2 a fresh one whose arguments violate the leaf's policy
+}
+
+func (c *clockHistCase) Weight() int { return len(c.Seq) }
+
+// clockHistSub: sequences of checks on the SAME token objects while the (controlled) clock stands at chosen
+// instants around the bound - forwards, backwards, back and forth. Every verdict is the reference's for the
+// instant of that check; nothing may be remembered from an earlier instant.
+func clockHistSub(prop string) *engine.Sub {
+	name := "checks-across-virtual-expiry"
+	if prop == "C05" {
+		name += "-completeness"
+	}
+	return &engine.Sub{
+		Name:   name,
+		Serial: true,
+		Rule:   "E7: one two-link chain and its invocation, one of the three tokens carrying one bound B (nbf or exp); three authorization checks in a row on the same delegation objects - each with the shared invocation token, a fresh one, or a fresh one that the leaf's policy refuses - while the controlled clock stands at an instant chosen per check from {B-1s, B-1ns, B+1ns, B+1s} (all 64 sequences: time passing, standing still, being stepped back), ExecutionAllowed and ExecutionAllowedWithArgsHook alternating; plus IsValidNow of the bounded token before every check: each verdict is the reference's for the instant of that check (C04: not allowed outside the window; C05: allowed inside); non-trivial = sequences that cross the bound",
+		Bound:  func(string) string { return "5 (bound, token) placements x 64 clock sequences x 27 invocation patterns x 3 checks" },
+		Setup:  func(string) error { chainInit(); return nil },
+		Gen: func(tier string, emit func(any) bool) {
+			for _, bo := range [][2]any{{"nbf", 0}, {"nbf", 1}, {"exp", 0}, {"exp", 1}, {"exp", 2}} {
+				for a := 0; a < 4; a++ {
+					for b := 0; b < 4; b++ {
+						for c := 0; c < 4; c++ {
+							for f := 0; f < 27; f++ {
+								if !emit(&clockHistCase{Bound: bo[0].(string), On: bo[1].(int), Seq: []int{a, b, c}, Kind: []int{f % 3, f / 3 % 3, f / 9}}) {
+									return
+								}
+							}
+						}
+					}
+				}
+			}
+		},
+		NewCase: func() any { return &clockHistCase{} },
+		Run: func(ctx *engine.Ctx, c any) {
+			cs := c.(*clockHistCase)
+			menu := clockMenu()
+			mk := func(iss, aud int, on bool) *delegation.Token {
+				var opts []delegation.Option
+				if on && cs.Bound == "nbf" {
+					opts = append(opts, delegation.WithNotBefore(clockB))
+				}
+				if on && cs.Bound == "exp" {
+					opts = append(opts, delegation.WithExpiration(clockB))
+				}
+				var pol policy.Policy
+				if aud == 2 {
+					pol = policy.MustConstruct(policy.Equal(".x", literal.Int(1)))
+				}
+				return mustDlg(iss, aud, 0, "/a", pol, opts...)
+			}
+			leaf, root := mk(1, 2, cs.On == 0), mk(0, 1, cs.On == 1)
+			ld := &sliceLoader{cids: []cid.Cid{cidPool[0], cidPool[1]}, toks: []*delegation.Token{leaf, root}}
+			mkInv := func(x int) *invocation.Token {
+				iopts := []invocation.Option{invocation.WithNonce(fixedNonce), invocation.WithoutInvokedAt(), invocation.WithArgument("x", x)}
+				if cs.On == 2 {
+					iopts = append(iopts, invocation.WithExpiration(clockB))
+				}
+				inv, err := invocation.New(prin(2), prin(0), "/a", []cid.Cid{cidPool[0], cidPool[1]}, iopts...)
+				if err != nil {
+					panic(err)
+				}
+				return inv
+			}
+			shared := mkInv(1)
+			inside := func(t time.Time) bool {
+				if cs.Bound == "nbf" {
+					return t.After(clockB)
+				}
+				return t.Before(clockB)
+			}
+			now := menu[0]
+			restore := verifclock.Install(func() time.Time { return now })
+			defer restore()
+			ctx.States(1)
+			crosses := false
+			for k, mi := range cs.Seq {
+				if k > 0 && inside(menu[mi]) != inside(menu[cs.Seq[k-1]]) {
+					crosses = true
+				}
+			}
+			if crosses {
+				ctx.Nontrivial(1)
+			}
+			for k, mi := range cs.Seq {
+				now = menu[mi]
+				inv := shared
+				switch cs.Kind[k] {
+				case 1:
+					inv = mkInv(1)
+				case 2:
+					inv = mkInv(2)
+				}
+				var nowValid bool
+				switch cs.On {
+				case 0:
+					nowValid = leaf.IsValidNow()
+				case 1:
+					nowValid = root.IsValidNow()
+				default:
+					nowValid = inv.IsValidNow()
+				}
+				var verdict error
+				if k%2 == 0 {
+					verdict = inv.ExecutionAllowed(ld)
+				} else {
+					verdict = inv.ExecutionAllowedWithArgsHook(ld, identityHook)
+				}
+				ctx.Eval(2)
+				ctx.Trans(1)
+				ctx.Outcome(errLabel(verdict))
+				want := inside(now)
+				at := fmt.Sprintf("B%+dns", now.Sub(clockB).Nanoseconds())
+				if cs.Kind[k] == 2 {
+					// refused by the policy whatever the clock says; it is in the history for what it may leave behind
+					if verdict == nil {
+						ctx.Failf(cs, "allowed-despite-policy/in-a-clock-history", "check #%d of the history %v / %v: an invocation whose arguments violate the leaf's policy is allowed", k, cs.Seq, cs.Kind)
+					}
+					continue
+				}
+				if prop == "C04" {
+					if verdict == nil && !want {
+						ctx.Failf(cs, "time-not-enforced/after-earlier-checks-at-other-instants", "check #%d of the history %v (clock at %s) is allowed although token %d is outside its window (%s=B)", k, cs.Seq, at, cs.On, cs.Bound)
+					}
+					if nowValid && !want {
+						ctx.Failf(cs, "valid-outside-window/IsValidNow-after-earlier-checks", "IsValidNow of token %d says valid with the clock at %s (%s=B), history %v", cs.On, at, cs.Bound, cs.Seq)
+					}
+				} else {
+					if verdict != nil && want {
+						ctx.Failf(cs, "conforming-denied:"+errLabel(verdict)+"/after-earlier-checks-at-other-instants", "check #%d of the history %v (clock at %s) is denied although every token is inside its window: %v", k, cs.Seq, at, verdict)
+					}
+					if !nowValid && want {
+						ctx.Failf(cs, "invalid-inside-window/IsValidNow-after-earlier-checks", "IsValidNow of token %d says invalid with the clock at %s (%s=B), history %v", cs.On, at, cs.Bound, cs.Seq)
+					}
 				}
 			}
 		},
